@@ -737,6 +737,121 @@ func c10SubsetSizes(r *run.Run) {
 		})
 }
 
+// c10LargeKerning: kerning data (pair adjustment format 1, the GPOS data the subsetter supports) that needs
+// extension records in the lookup list of the subset.
+func c10LargeKerning(r *run.Run) {
+	const ng = 104
+	mk := func(nl int) *sfnt.Font {
+		f, _ := FontFromChoices(gen.FontOpts{NoMeta: true, NoLayout: true}, 0, 1, 0, 0, 1)
+		o := *f.Outlines.(*glyf.Outlines)
+		o.Glyphs, o.Widths, o.Names = nil, nil, nil
+		for i := 0; i < ng; i++ {
+			o.Glyphs = append(o.Glyphs, &glyf.Glyph{Rect16: funit.Rect16{URx: 10, URy: 10}, Data: glyf.SimpleGlyph{NumContours: 1, Encoded: []byte{0, 0, 0, 0, 0x31}}})
+			o.Widths = append(o.Widths, funit.Int16(400+i))
+		}
+		f.Outlines = &o
+		var ls []*gtab.LookupTable
+		for l := 0; l < nl; l++ {
+			st := gtab.Gpos2_1{}
+			for a := 1; a < ng; a++ {
+				for b := 1; b < ng; b++ {
+					st[glyph.Pair{Left: glyph.ID(a), Right: glyph.ID(b)}] = &gtab.PairAdjust{First: &gtab.GposValueRecord{XAdvance: funit.Int16(-1 - (a*7+b*3+l)%50)}}
+				}
+			}
+			ls = append(ls, gen.MakeLookup(2, gen.Flags[0], []gtab.Subtable{st}))
+		}
+		f.Gpos = gsubInfo("kern", ls...)
+		return f
+	}
+	r.Explore(explore.Config{Name: "C10.subset-large-kerning"},
+		"a 104-glyph font with 1..4 kerning lookups (pair adjustment format 1, 10609 pairs = about 45 kB each: from three lookups on the lookup list needs extension records) subset to all glyphs in reverse order, to all but the last four, and to every second glyph: the kerning of the subset equals that of the original on the retained glyphs, and the subset is written and read back with the same kerning",
+		func(c *explore.Ctx) {
+			nl := 1 + c.Choose(4, "kerning lookups")
+			var list []glyph.ID
+			switch c.Choose(3, "glyph list") {
+			case 0:
+				list = append(list, 0)
+				for g := ng - 1; g >= 1; g-- {
+					list = append(list, glyph.ID(g))
+				}
+			case 1:
+				for g := 0; g < ng-4; g++ {
+					list = append(list, glyph.ID(g))
+				}
+			default:
+				for g := 0; g < ng; g += 2 {
+					list = append(list, glyph.ID(g))
+				}
+			}
+			f := mk(nl)
+			desc := fmt.Sprintf("%d lookups, %d glyphs retained starting %v", nl, len(list), list[:3])
+			c.Sample(func() any { return desc })
+			c.Outcome(desc)
+			sub := f.Subset(list)
+			if sub.Gpos == nil || len(sub.Gpos.LookupList) != nl {
+				c.Fail("C10.rules", "large kerning", "the subset has no / not all kerning lookups; %s", desc)
+				return
+			}
+			check := func(what string, info *gtab.Info) bool {
+				if info == nil || len(info.LookupList) != nl {
+					c.Fail("C10.reread", "large kerning "+what, "%s: %d kerning lookups expected; %s", what, nl, desc)
+					return false
+				}
+				for l := 0; l < nl; l++ {
+					orig := f.Gpos.LookupList[l].Subtables[0].(gtab.Gpos2_1)
+					n := 0
+					for _, stb := range info.LookupList[l].Subtables {
+						st, ok := stb.(gtab.Gpos2_1)
+						if !ok {
+							c.Fail("C10.rules", "large kerning "+what, "%s: lookup %d holds a %T; %s", what, l, stb, desc)
+							return false
+						}
+						for pr, adj := range st {
+							n++
+							if int(pr.Left) >= len(list) || int(pr.Right) >= len(list) {
+								c.Fail("C10.rules", "large kerning "+what, "%s: lookup %d has a pair of glyphs %d, %d the subset does not have; %s", what, l, pr.Left, pr.Right, desc)
+								return false
+							}
+							o := orig[glyph.Pair{Left: list[pr.Left], Right: list[pr.Right]}]
+							if o == nil || adj == nil || adj.First == nil || *adj.First != *o.First || adj.Second != nil && *adj.Second != (gtab.GposValueRecord{}) {
+								c.Fail("C10.rules", "large kerning "+what, "%s: lookup %d, pair (%d,%d) = original (%d,%d): adjustment differs; %s", what, l, pr.Left, pr.Right, list[pr.Left], list[pr.Right], desc)
+								return false
+							}
+						}
+					}
+					want := 0
+					for _, a := range list {
+						for _, b := range list {
+							if a != 0 && b != 0 {
+								want++
+							}
+						}
+					}
+					if n != want {
+						c.Fail("C10.rules", "large kerning "+what, "%s: lookup %d has %d pairs, %d expected; %s", what, l, n, want, desc)
+						return false
+					}
+				}
+				return true
+			}
+			if !check("the subset in memory", sub.Gpos) {
+				return
+			}
+			c.Nontrivial()
+			buf := &bytes.Buffer{}
+			if _, err := sub.Write(buf); err != nil {
+				c.Fail("C10.write", "large kerning", "the subset cannot be written: %v; %s", err, desc)
+				return
+			}
+			back, err := sfnt.Read(bytes.NewReader(buf.Bytes()))
+			if err != nil {
+				c.Fail("C10.reread", "large kerning", "the written subset cannot be read back: %v; %s", err, desc)
+				return
+			}
+			check("the subset read back", back.Gpos)
+		})
+}
+
 // c10GlyfSizes: subsets of a TrueType font whose glyph data has a chosen total size around the limits of
 // the two "loca" formats (64 KiB: where the library changes format; 128 KiB: the most the short format can address).
 func c10GlyfSizes(r *run.Run) {
@@ -1064,6 +1179,7 @@ func init() {
 		r.Assume = []string{"only layout data the subsetter declares supported: GSUB 1.1 / 4.1, GPOS 2.1, no GDEF", "characters mapping to glyphs that were appended by the closure may or may not be mapped"}
 		c10SubsetSizes(r)
 		c10GlyfSizes(r)
+		c10LargeKerning(r)
 		c10OutlinesSubset(r)
 		c10ShortNames(r)
 		c10Subset(r)
